@@ -8,7 +8,7 @@ import FluteModel.Spec.Wire
     plct <hex>                                       parse_lct_header               → ok <len>,<cci>,<tsi>,<toi>,<cp>,<co>,<cs>,<extoff> | ERR | PANIC
     ext <hex> <het>                                  parse_lct_header + get_ext     → ok none | ok <hex> | ERR | PANIC
     pkt <oti:7> <cci> <tsi> <toi> <fdtid|-> <cenc> <inbandcenc> <co> <sbl> <sct µs|-> <rfc3926> <tl> <sbn> <esi> <payload hex>
-                                                     new_alc_pkt                    → ok <hex> | PANIC
+                                                     new_alc_pkt                    → ok <hex> | unspecified (builder precondition violated)
     close <cci> <tsi>                                new_alc_pkt_close_session      → ok <hex> | PANIC
     parse <hex>                                      parse_alc_pkt, get_sender_current_time, parse_payload_id
          → ok L=<lct> F=<oti|-> T=<tl|-> C=<cenc|-> D=<v>:<id>|- O=<alcoff>,<payoff> S=<µs|-|ERR|PANIC> P=<sbn>,<esi>,<sbl|->|ERR|PANIC
@@ -127,7 +127,12 @@ def step (args : List String) : String :=
           let pkt : Pkt := { payload := pay, transferLength := tl, esi := esi, sbn := sbn, toi := toi, fdtId := fdtid,
                              cenc := cenc, inbandCenc := ibc, closeObject := co, sourceBlockLength := sbl,
                              senderCurrentTime := sct.isSome }
-          showRs hex (newAlcPkt oti cci tsi pkt r3926 (sct.getD 0))
+          -- builder preconditions (`debug_assert!` / `unwrap` / checked u32 add / shift by m ≥ 32) are outside C06's
+          -- range and profile dependent: where the model's builder panics the compared token is `unspecified`
+          -- (the engine prints the same token from the same precondition, whatever the implementation does)
+          match newAlcPkt oti cci tsi pkt r3926 (sct.getD 0) with
+          | .ok b => "ok " ++ hex b
+          | .error _ => "unspecified"
         else "bad-op"
       | _, _, _, _, _, _, _ => "bad-op"
     | _, _ => "bad-op"
